@@ -238,7 +238,7 @@ func initAllowed(path string) bool {
 func initSkip(path string) bool {
 	switch path {
 	case "fmt", "log", "syscall", "net/http", "encoding/json", "golang.org/x/sys/unix",
-		"github.com/mdlayher/netlink", "github.com/jsimonetti/rtnetlink", "net/url", "math/rand", "sync", "unique",
+		"github.com/mdlayher/netlink", "github.com/jsimonetti/rtnetlink", "net/url", "math/rand", "unique",
 		"strings", "bytes", "github.com/mdlayher/sdnotify", "github.com/mdlayher/metricslite":
 		return true
 	}
